@@ -18,6 +18,7 @@ from ..nullsafety import NullSafety
 from ..effects import Analyzer, clean_path, significant
 from ..matx import MatX, show
 from .C07 import find_def
+from .. import hiddenstate
 
 LEVEL = 'other'
 EXPLANATION = ('null-safety abstract interpretation of every Corr method (nullable timeslice values, guard idioms, short-circuit order), per-path append counting, '
@@ -447,6 +448,8 @@ def run(ctx):
     ctx.guarded('C14-D2', 'correlators.py@extent', d2_extent, ctx, mod)
     ctx.guarded('C14-D3', 'correlators.py@nan', d3_nan, ctx, mod)
     ctx.guarded('C14-D4', 'correlators.py@effects', d4_effects, ctx, mod)
+    ctx.rule('C14-D8', 'no hidden state shared between calls of Corr methods')
+    ctx.guarded('C14-D8', 'correlators@hidden-state', hiddenstate.check, ctx, 'C14-D8', mod, [q for q, _ in mod.functions() if q.count('.') <= 1], 'the returned correlator')
     ctx.guarded('C14-D6', 'correlators.py@naming', d6_naming, ctx, mod)
     ctx.guarded('C14-D7', 'correlators.py@operators', d7_operators, ctx, mod)
 
